@@ -345,6 +345,40 @@ def read_cmdline():
     return nocase, o, qq
 
 
+def read_help():
+    """The level table the compiler documents (`aldor -h Q`): rows `-Q <name> ... \\t<marks>` of the message
+    ALDOR_H_HelpOptimOpt; a mark X in column k (4 characters per column) means "on at -Qk"."""
+    txt = open(C.SRC + "/comsgdb.msg", errors="replace").read()
+    m = re.search(r'ALDOR_H_HelpOptimOpt\s+"\\\n(.*?)\n"', txt, re.S)
+    if not m:
+        return [], None, None
+    body = m.group(1)
+    rows = []
+    for line in body.split("\n"):
+        f = line.replace("\\n\\", "").split("\\t")
+        if len(f) < 4:
+            continue
+        mm = re.fullmatch(r"-Q ([a-z][a-z-]*)\s*", f[1])
+        if not mm or "=" in f[1]:
+            continue
+        marks = f[3] if len(f) > 3 else ""
+        if not re.fullmatch(r"[ X]*", marks):
+            continue
+        cols = [False] * 5
+        for i, ch in enumerate(marks):
+            if ch == "X" and i // 4 < 5:
+                cols[i // 4] = True
+        rows.append((mm.group(1), cols))
+    seen, out = set(), []
+    for n, c in rows:
+        if n not in seen:
+            seen.add(n)
+            out.append((n, c))
+    d = re.search(r"\(default `-Q(\d)'\)", body)
+    o = re.search(r"-O\s+\\tOptimize\.\s+This is equivalent to `-Q(\d)'", body)
+    return out, int(d.group(1)) if d else None, int(o.group(1)) if o else None
+
+
 def generate():
     pp = preprocess(C.SRC + "/optfoam.c")
     rows, qlim = read_table(pp)
@@ -359,6 +393,7 @@ def generate():
     m = re.search(r"^optPrintOpts\s*\([^)]*\)\s*\{(.*?)^\}", pp, re.S | re.M)
     print_ok = bool(m and re.search(r'for \(i = 0; optControl\[i\]\.name; i\+\+\)\s*fprintf\(fout, "%15s %d\\n", optControl\[i\]\.name, \*optControl\[i\]\.pvar\);', m.group(1)))
     nocase, o_ok, q_ok = read_cmdline()
+    help_rows, help_default, help_O = read_help()
     L = ["(* GENERATED on every run by tools/c02_gen.py from the preprocessed text of",
          "   <repo>/aldor/aldor/src/optfoam.c and the -O/-Q cases of cmdline.c - do not edit *)",
          "Require Import ZArith List String Ascii.", "Require Import AV.Opt.Ctl.", "Import ListNotations.",
@@ -393,6 +428,12 @@ def generate():
     L.append("Definition cmd_letter_nocase : bool := %s." % ("true" if nocase else "false"))
     L.append("Definition cmd_O_is_std : bool := %s." % ("true" if o_ok else "false"))
     L.append("Definition cmd_Q_is_decoder : bool := %s." % ("true" if q_ok else "false"))
+    L.append("(* the compiler's own help text (comsgdb.msg, ALDOR_H_HelpOptimOpt): the X marks under Q0..Q4 *)")
+    L.append("Definition help_levels : list (string * list bool) := [\n  %s\n]." % ";\n  ".join(
+        "(%s, [%s])" % (q(n), "; ".join("true" if b else "false" for b in marks)) for n, marks in help_rows))
+    L.append("(* \"(default `-Q<n>')\" and \"-O ... equivalent to `-Q<n>'\" of the help text *)")
+    L.append("Definition help_default : option Z := %s." % ("Some %d" % help_default if help_default is not None else "None"))
+    L.append("Definition help_O : option Z := %s." % ("Some %d" % help_O if help_O is not None else "None"))
     txt = "\n".join(L) + "\n"
     C.write_if_changed(C.COQ + "/Gen/OptCtl.v", txt)
     return {"rows": rows, "qlim": qlim, "level_shape": lvl, "default": default, "std": std, "stages": stages,
